@@ -18,6 +18,8 @@ demo = next(f for f in ("demo.py", "demo_test.py") if os.path.exists(os.path.joi
 ran = []
 # the patch file must be what is applied in the worktree
 sh(f"git -C {wt} stash -q")
+head = sh("git -C /repo rev-parse HEAD").stdout.strip()
+sh(f"git -C {wt} checkout -q --detach {head}")      # the worktree may predate later fix: commits in /repo
 r = sh(f"git -C {wt} apply --check {mut}/patch.diff")
 assert r.returncode == 0, "patch does not apply to the clean tree: " + r.stdout
 r0 = sh(f"cd {mut} && timeout 300 /venv/bin/python {mut}/{demo}")
